@@ -9,3 +9,5 @@ import RagcModel.Model.Container
 import RagcModel.Model.Range
 import RagcModel.Model.LzDiff
 import RagcModel.Model.Pipeline
+import RagcModel.Model.Packs
+import RagcModel.Model.Agc3
